@@ -350,6 +350,9 @@ pub fn run(ctx: &Ctx) -> Finish {
             l.samples.push((i as u64, json!(base)));
         }
         check_case(l, &base);
+        // the decision-variable list is a set: the same instance with the list out of id order
+        check_case(l, &Case { objective: f.clone(), binary_ids: vec![7, 1, 2], variant: Variant::Base });
+        check_case(l, &Case { objective: f.clone(), binary_ids: vec![2, 7, 1], variant: Variant::RemovedConstraintOnly });
         // every refusal condition on every base
         for v in [Variant::ActiveConstraint, Variant::Maximize, Variant::RemovedConstraintOnly] {
             check_case(l, &Case { objective: f.clone(), binary_ids: vec![1, 2, 7], variant: v });
@@ -376,7 +379,7 @@ pub fn run(ctx: &Ctx) -> Finish {
             }
             for pattern in 0..(if t { 5 } else { 2 }) {
                 let ids: Vec<u64> = (0..n as u64).map(|i| i * 3 + 1).collect();
-                big.push(Case { objective: Some(large_family(n, d, pattern, false)), binary_ids: ids.clone(), variant: Variant::Base });
+                big.push(Case { objective: Some(large_family(n, d, pattern, false)), binary_ids: if pattern % 2 == 1 { ids.iter().rev().cloned().collect() } else { ids.clone() }, variant: Variant::Base });
                 if d <= 2 {
                     big.push(Case { objective: Some(large_family(n, d, pattern, true)), binary_ids: ids, variant: Variant::Base });
                 }
@@ -390,7 +393,7 @@ pub fn run(ctx: &Ctx) -> Finish {
     });
     Finish {
         level: "model_checking",
-        rule: "every objective message of the C01 representation alphabet over 3 binary variables (all variants, repeated ids inside monomials, x^2, cancelling terms, split constants, zeros) and deterministic all-monomial families for n = 4..12, degree <= 4; PUBO and QUBO dictionaries checked on ALL 2^n assignments against the exact objective, keys canonical, no zero coefficient stored; every refusal condition (active constraint, maximise, used integer / continuous / semi-* / unspecified / undefined variable at each position, >2 distinct variables for QUBO) on every base; a removed constraint alone, a defined non-binary variable the objective does not use, and such a variable mentioned only by a removed constraint must not cause refusal".into(),
+        rule: "every objective message of the C01 representation alphabet over 3 binary variables (all variants, repeated ids inside monomials, x^2, cancelling terms, split constants, zeros) and deterministic all-monomial families for n = 4..12, degree <= 4; PUBO and QUBO dictionaries checked on ALL 2^n assignments against the exact objective, keys canonical, no zero coefficient stored; the variable list in and out of id order; every refusal condition (active constraint, maximise, used integer / continuous / semi-* / unspecified / undefined variable at each position, >2 distinct variables for QUBO) on every base; a removed constraint alone, a defined non-binary variable the objective does not use, and such a variable mentioned only by a removed constraint must not cause refusal".into(),
         bounds: json!({"n_small": 3, "n_large": "4..=12", "degree_max": 4, "assignments": "all 2^n"}),
         exhaustive: true,
     }
